@@ -64,17 +64,33 @@ pub fn start_determining_calling_process_in_thread() {
     std::thread::Builder::new()
         .name("find_calling_process".into())
         .spawn(move || {
+            #[cfg(dandavison_delta_verif)]
+            let _verif_done = verif::Done("b.done");
+            #[cfg(dandavison_delta_verif)]
+            verif::gate("b.compute");
             let calling_process = determine_calling_process();
+            #[cfg(dandavison_delta_verif)]
+            verif::note("guess", &calling_process);
 
             let (caller_mutex, determine_done) = &**CALLER;
 
+            #[cfg(dandavison_delta_verif)]
+            verif::gate("b.lock");
             let mut caller = caller_mutex.lock().unwrap();
 
+            #[cfg(dandavison_delta_verif)]
+            verif::gate("b.load");
             if CALLER_INFO_SOURCE.load(DELTA_ATOMIC_ORDERING) <= CALLER_GUESSED {
+                #[cfg(dandavison_delta_verif)]
+                verif::gate("b.store");
                 *caller = calling_process;
             }
 
+            #[cfg(dandavison_delta_verif)]
+            verif::gate("b.notify");
             determine_done.notify_all();
+            #[cfg(dandavison_delta_verif)]
+            verif::gate("b.unlock");
         })
         .unwrap();
 }
@@ -84,10 +100,24 @@ pub fn set_calling_process(args: &[String]) {
     if let ProcessArgs::Args(result) = describe_calling_process(args) {
         let (caller_mutex, determine_done) = &**CALLER;
 
+        #[cfg(dandavison_delta_verif)]
+        let _verif_done = verif::Done("m.done");
+        #[cfg(dandavison_delta_verif)]
+        verif::note("known", &result);
+        #[cfg(dandavison_delta_verif)]
+        verif::gate("m.lock");
         let mut caller = caller_mutex.lock().unwrap();
+        #[cfg(dandavison_delta_verif)]
+        verif::gate("m.store");
         *caller = result;
+        #[cfg(dandavison_delta_verif)]
+        verif::gate("m.flag");
         CALLER_INFO_SOURCE.store(CALLER_KNOWN, DELTA_ATOMIC_ORDERING);
+        #[cfg(dandavison_delta_verif)]
+        verif::gate("m.notify");
         determine_done.notify_all();
+        #[cfg(dandavison_delta_verif)]
+        verif::gate("m.unlock");
     }
 }
 
@@ -110,8 +140,12 @@ pub fn verif_force_calling_process(args: &[String]) {
 pub fn calling_process() -> MutexGuard<'static, CallingProcess> {
     let (caller_mutex, determine_done) = &**CALLER;
 
+    #[cfg(dandavison_delta_verif)]
+    let _verif_done = verif::query_begin();
     determine_done
         .wait_while(caller_mutex.lock().unwrap(), |caller| {
+            #[cfg(dandavison_delta_verif)]
+            verif::query_check(caller);
             *caller == CallingProcess::Pending
         })
         .unwrap()
@@ -139,8 +173,226 @@ pub fn calling_process() -> Box<CallingProcess> {
 }
 
 fn determine_calling_process() -> CallingProcess {
+    #[cfg(dandavison_delta_verif)]
+    if let Some(forced) = verif_forced_guess() {
+        return forced;
+    }
     calling_process_cmdline(ProcInfo::new(), describe_calling_process)
         .unwrap_or(CallingProcess::None)
+}
+
+// Verification builds only: DELTA_VERIF_FORCE_GUESS=<none|git grep -n foo|rg foo|git blame f|...>
+// pins the result of the process-table scan (and only that; the thread, mutex and
+// condvar protocol run as usual). Unset: no effect.
+#[cfg(dandavison_delta_verif)]
+pub fn verif_guess_from_str(cmdline: &str) -> CallingProcess {
+    let args: Vec<String> = cmdline.split_whitespace().map(String::from).collect();
+    match describe_calling_process(&args) {
+        ProcessArgs::Args(calling_process) => calling_process,
+        _ => CallingProcess::None,
+    }
+}
+
+#[cfg(dandavison_delta_verif)]
+fn verif_forced_guess() -> Option<CallingProcess> {
+    std::env::var("DELTA_VERIF_FORCE_GUESS")
+        .ok()
+        .map(|v| verif_guess_from_str(&v))
+}
+
+// Verification builds only (property C20): ordering points of the CALLER protocol.
+// A gate stands *before* a statement of the protocol (`b.*` background thread, `m.*`
+// set_calling_process, `q<k>.*` the k-th calling_process() query).
+//   DELTA_VERIF_SCHEDULE=<e1,e2,...>  global order of gate events to force: a thread stops at
+//     a gate named in the rest of the schedule until it is that event's turn (and the thread
+//     of the previous event has reached its next gate, or DELTA_VERIF_SCHEDULE_SETTLE_MS,
+//     default 20, elapsed); gates not named there pass freely. A schedule that cannot
+//     happen is reported (`INFEASIBLE ...`, exit 96) instead of hanging: at once when the
+//     next event belongs to the thread standing at a different gate, else after
+//     DELTA_VERIF_SCHEDULE_TIMEOUT_MS (default 3000).
+//   DELTA_VERIF_SCHEDULE_LOG=<file>  event/query log (appended); without it and with a
+//     schedule: stderr. With neither variable set every gate is a no-op.
+#[cfg(dandavison_delta_verif)]
+#[allow(dead_code)]
+mod verif {
+    use super::CallingProcess;
+    use std::io::Write;
+    use std::sync::atomic::{AtomicUsize, Ordering};
+    use std::sync::{Condvar, Mutex};
+    use std::time::{Duration, Instant};
+
+    struct Sched {
+        events: Vec<String>,
+        idx: usize,
+        last: Option<bool>, // thread (is_bg) of the event granted last
+        arrived: bool,      // ... and whether it has reached its next gate since
+        granted_at: Instant,
+        log: Option<std::fs::File>,
+        settle: Duration,
+        timeout: Duration,
+    }
+
+    fn env_ms(name: &str, default: u64) -> Duration {
+        let v = std::env::var(name).ok().and_then(|v| v.parse().ok());
+        Duration::from_millis(v.unwrap_or(default))
+    }
+
+    lazy_static::lazy_static! {
+        static ref ACTIVE: bool = std::env::var_os("DELTA_VERIF_SCHEDULE").is_some()
+            || std::env::var_os("DELTA_VERIF_SCHEDULE_LOG").is_some();
+        static ref SCHED: (Mutex<Sched>, Condvar) = {
+            let events = std::env::var("DELTA_VERIF_SCHEDULE").unwrap_or_default();
+            let log = std::env::var_os("DELTA_VERIF_SCHEDULE_LOG").and_then(|p| {
+                std::fs::OpenOptions::new().create(true).append(true).open(p).ok()
+            });
+            (
+                Mutex::new(Sched {
+                    events: events.split(',').filter(|e| !e.is_empty()).map(String::from).collect(),
+                    idx: 0,
+                    last: None,
+                    arrived: true,
+                    granted_at: Instant::now(),
+                    log,
+                    settle: env_ms("DELTA_VERIF_SCHEDULE_SETTLE_MS", 20),
+                    timeout: env_ms("DELTA_VERIF_SCHEDULE_TIMEOUT_MS", 3000),
+                }),
+                Condvar::new(),
+            )
+        };
+    }
+    static QUERY: AtomicUsize = AtomicUsize::new(0);
+
+    fn is_bg(gate: &str) -> bool {
+        gate.starts_with('b')
+    }
+
+    fn log(s: &mut Sched, line: &str) {
+        match s.log.as_mut() {
+            Some(f) => drop(writeln!(f, "{line}")),
+            None => eprintln!("verif-caller: {line}"),
+        }
+    }
+
+    // Canonical one-line rendering (HashSet order removed).
+    pub fn describe(c: &CallingProcess) -> String {
+        let cl = |name: &str, c: &super::CommandLine| {
+            let mut long: Vec<_> = c.long_options.iter().cloned().collect();
+            let mut short: Vec<_> = c.short_options.iter().cloned().collect();
+            long.sort();
+            short.sort();
+            format!("{name} long={long:?} short={short:?} last={:?}", c.last_arg)
+        };
+        match c {
+            CallingProcess::GitDiff(c) => cl("GitDiff", c),
+            CallingProcess::GitShow(c, f) => format!("{} file={f:?}", cl("GitShow", c)),
+            CallingProcess::GitLog(c) => cl("GitLog", c),
+            CallingProcess::GitReflog(c) => cl("GitReflog", c),
+            CallingProcess::GitBlame(c) => cl("GitBlame", c),
+            CallingProcess::GitGrep(c) => cl("GitGrep", c),
+            CallingProcess::OtherGrep => "OtherGrep".into(),
+            CallingProcess::None => "None".into(),
+            CallingProcess::Pending => "Pending".into(),
+        }
+    }
+
+    pub fn note(what: &str, c: &CallingProcess) {
+        if *ACTIVE {
+            log(&mut SCHED.0.lock().unwrap(), &format!("{what} {}", describe(c)));
+        }
+    }
+
+    // The thread has reached an ordering point: its previous statement is complete.
+    fn arrive(s: &mut Sched, bg: bool) {
+        if s.last == Some(bg) && !s.arrived {
+            s.arrived = true;
+            SCHED.1.notify_all();
+        }
+    }
+
+    pub struct Done(pub &'static str);
+    impl Drop for Done {
+        fn drop(&mut self) {
+            if *ACTIVE {
+                let mut s = SCHED.0.lock().unwrap();
+                arrive(&mut s, is_bg(self.0));
+                log(&mut s, &format!("done {}", self.0));
+            }
+        }
+    }
+
+    pub struct QueryRet(usize);
+    impl Drop for QueryRet {
+        fn drop(&mut self) {
+            if *ACTIVE {
+                let mut s = SCHED.0.lock().unwrap();
+                arrive(&mut s, false);
+                log(&mut s, &format!("ret q{}", self.0));
+            }
+        }
+    }
+
+    pub fn query_begin() -> QueryRet {
+        let k = QUERY.fetch_add(1, Ordering::SeqCst) + 1;
+        gate(&format!("q{k}.lock"));
+        QueryRet(k)
+    }
+
+    // Called with the CALLER mutex held, before each evaluation of the wait condition.
+    pub fn query_check(c: &CallingProcess) {
+        let k = QUERY.load(Ordering::SeqCst);
+        gate(&format!("q{k}.check"));
+        if *ACTIVE {
+            log(&mut SCHED.0.lock().unwrap(), &format!("check q{k} {}", describe(c)));
+        }
+    }
+
+    fn infeasible(s: &mut Sched, gate: &str, reason: &str) -> ! {
+        let line = format!(
+            "INFEASIBLE idx={} at={gate} expected={} reason={reason}",
+            s.idx, s.events[s.idx]
+        );
+        log(s, &line);
+        std::process::exit(96);
+    }
+
+    pub fn gate(name: &str) {
+        if !*ACTIVE {
+            return;
+        }
+        let (mutex, turn) = &*SCHED;
+        let mut s = mutex.lock().unwrap();
+        let bg = is_bg(name);
+        arrive(&mut s, bg);
+        if !s.events[s.idx.min(s.events.len())..].iter().any(|e| e == name) {
+            log(&mut s, &format!("free {name}"));
+            return;
+        }
+        let deadline = Instant::now() + s.timeout;
+        loop {
+            let now = Instant::now();
+            let mut nap = Duration::from_millis(50);
+            if s.events[s.idx] == name {
+                let settled = s.arrived || s.last == Some(bg) || s.last.is_none();
+                let since = now.duration_since(s.granted_at);
+                if settled || since >= s.settle {
+                    let line = format!("ev {} {name}", s.idx);
+                    log(&mut s, &line);
+                    s.idx += 1;
+                    s.last = Some(bg);
+                    s.arrived = false;
+                    s.granted_at = now;
+                    turn.notify_all();
+                    return;
+                }
+                nap = s.settle - since;
+            } else if is_bg(&s.events[s.idx]) == bg {
+                infeasible(&mut s, name, "mismatch");
+            } else if now >= deadline {
+                infeasible(&mut s, name, "timeout");
+            }
+            s = turn.wait_timeout(s, nap).unwrap().0;
+        }
+    }
 }
 
 // Return value of `extract_args(args: &[String]) -> ProcessArgs<T>` function which is
